@@ -302,6 +302,12 @@ func cmdReplay(args []string) {
 					continue
 				}
 				c = mapCall(c, cc)
+				if kind == "keygaps" && c.C0 > 0 && c.C1 > c.C0 { // a range across the unused keys would materialise all of them
+					lo, hi := e.rangeOf(c.C0, c.C1)
+					if hi-lo > 1<<22 {
+						continue
+					}
+				}
 				if *bits == 64 && !op64[c.Op] {
 					continue
 				}
